@@ -171,17 +171,50 @@ def attributed_functions(res):
     return []
 
 
-def relevant(pid, res, units):
+def cex_props(res):
+    """the properties a counterexample of a driver speaks about (what exactly was compared, see witness/src)"""
+    d = res.get('driver', '')
+    inp = str(res.get('input', ''))
+    exp = str(res.get('expected', ''))
+    act = str(res.get('actual', ''))
+    if exp == 'no panic':
+        return ['C03']
+    if ':' in d:
+        return [d.split(':')[1]]
+    if d == 'decoder':
+        return ['C02'] if 'ill-formed' in act else ['C04', 'C17']
+    if d == 'utils':
+        for k, v in (('char_count', ['C05', 'C17']), ('char_byte_index', ['C05', 'C17']), ('char_pop_front', ['C08', 'C17']),
+                     ('trim_start', ['C11']), ('common_prefix_len', ['C11', 'C17']), ('encode_utf8', ['C17'])):
+            if inp.startswith(k):
+                return v
+        return []
+    if d == 'token':
+        if inp.startswith('Tokens::new'):
+            return ['C02'] if 'well-formed' in exp else ['C07', 'C01']
+        if inp.startswith('arguments of'):
+            return ['C08']
+        if inp.startswith('HelpRequest'):
+            return ['C12']
+        return ['C01']
+    if d == 'editor':
+        return ['C02'] if 'well-formed' in exp else ['C05', 'C17']
+    if d == 'history':
+        return ['C10']
+    if d == 'autocomplete':
+        return ['C02'] if 'well-formed' in exp else ['C11']
+    if d == 'writer':
+        return ['C13']
+    if d == 'derive_help':
+        return ['C12']
+    if d == 'derive_fail':
+        return ['C14']
+    return []
+
+
+def relevant(pid, res, units=None):
     """does this counterexample witness a violation of property pid?"""
-    if res.get('expected') == 'no panic':
-        return pid == 'C03'
-    if ':' in res.get('driver', ''):
-        return res['driver'].split(':')[1] == pid
-    for pre in attributed_functions(res):
-        for name, u in units.items():
-            if name.startswith(pre) and pid in u.get('direct', u.get('props', [])):
-                return True
-    return False
+    return pid in cex_props(res)
 
 
 def search_modules(pid, modules, seed, work, units, features=('history', 'autocomplete', 'help')):
